@@ -170,6 +170,34 @@ def run_default_language(rng):
     l2 = make_diff(rng, lang, 'known_name.' + ext)
     if l1 is None or l2 is None:
         return inconclusive('empty diff')
+    if rng.random() < 0.3:
+        # a default language that is not known, in a directory that holds a file of that name starting with a shebang: the
+        # rendering may not depend on the directory delta is started in
+        import tempfile
+        import shutil
+        o1 = dict(opts)
+        o1['--default-language'] = 'zzunknownlang'
+        outs_ = []
+        for decoy in (False, True):
+            cwd = tempfile.mkdtemp(prefix='c15cwd', dir=os.path.join(runner.workdir(), 'tmp'))
+            if decoy:
+                with open(os.path.join(cwd, 'zzunknownlang'), 'w') as f:
+                    f.write(rng.choice(['#!/bin/bash', '#!/usr/bin/env python3', '#!/usr/bin/perl']) + '\nx = 1\n')
+            outs_.append(runner.run_delta(gen.to_args(o1), ('\n'.join(l1) + '\n').encode(), cwd=cwd))
+            shutil.rmtree(cwd, ignore_errors=True)
+        sets = {'languages': [lang], 'views': ['unified'], 'sub': ['default-language-unknown']}
+        for r in outs_:
+            c = crash_outcome(r, ID)
+            if c is not None:
+                return c
+        if outs_[0].out != outs_[1].out:
+            o = violated('c15:default-language:depends-on-directory', 'with --default-language <unknown name> the colouring depends on whether the working directory holds a '
+                         'file of that name (its first line is read)', None, None, run=outs_[1], sets=sets)
+            o['executions'] = 2
+            return o
+        o = held(sig=('default-language-unknown', lang, unknown), nontrivial=True, counters={'pairs': 1}, sets=sets)
+        o['executions'] = 2
+        return o
     o1 = dict(opts)
     o1['--default-language'] = ext
     # the working directory holds a file of that very name whose first line announces another language: the name alone
